@@ -180,6 +180,15 @@ def lens(n=12, h=0.08, ring=0.8, dz=0.048, twist=0.0):
     return v, np.array(t, dtype=np.int64)
 
 
+def sliver(rng, h=1e-6):
+    """a fan around an interior point plus one flat triangle (base 1, height h: one vertex almost on the opposite edge), generic
+    position; oriented, edge-manifold, no unused vertices.  Formulas that are fine for well-shaped triangles lose digits here."""
+    x = float(rng.uniform(0.2, 0.8))
+    v = np.array([[0.0, 0.0, 0.0], [1.0, 0.0, 0.0], [1.0, 1.0, 0.0], [0.0, 1.0, 0.0], [0.4, 0.45, 0.1], [x, -h, 0.0]])
+    t = np.array([[0, 1, 4], [1, 2, 4], [2, 3, 4], [3, 0, 4], [1, 0, 5]], dtype=np.int64)
+    return v @ random_rotation(rng).T + rng.uniform(-1, 1, 3), t
+
+
 def delaunay_patch(rng, n):
     from scipy.spatial import Delaunay
     while True:
@@ -300,7 +309,8 @@ def add_free(rng, v, t, k=2):
     return v, t
 
 
-PRES = ["plain", "t-fortran", "vt-fortran", "t-int32", "transposed", "strided"]
+NARROW = ["t-int32", "t-int8", "t-uint8", "t-int16", "t-uint16", "t-uint32"]      # index dtype (used when the indices fit)
+PRES = ["plain", "t-fortran", "vt-fortran", "transposed", "strided"] + NARROW
 
 
 def arrays(case, keep_int=True):
@@ -319,8 +329,10 @@ def present(v, t, pres="plain", vint=False):
         t = np.asfortranarray(t)
     elif pres == "vt-fortran":
         t = np.asfortranarray(t); v = np.asfortranarray(v)
-    elif pres == "t-int32":
-        t = t.astype(np.int32)
+    elif pres in NARROW:
+        dt = np.dtype(pres[2:])
+        if t.size and int(t.max()) <= np.iinfo(dt).max and int(t.min()) >= 0:
+            t = t.astype(dt)
     elif pres == "transposed":
         t = np.ascontiguousarray(t.T); v = np.ascontiguousarray(v.T)
     elif pres == "strided":
@@ -346,8 +358,10 @@ def relayout(v, t, pres, vint):
         t = np.asfortranarray(t)
     elif pres == "vt-fortran":
         t = np.asfortranarray(t); v = np.asfortranarray(v)
-    elif pres == "t-int32":
-        t = t.astype(np.int32)
+    elif pres in NARROW:
+        dt = np.dtype(pres[2:])
+        if t.size and int(t.max()) <= np.iinfo(dt).max and int(t.min()) >= 0:
+            t = t.astype(dt)
     elif pres == "transposed":
         t = np.ascontiguousarray(t.T); v = np.ascontiguousarray(v.T)
     elif pres == "strided":
@@ -385,6 +399,15 @@ def int_cases():
     gv = gv.copy(); gv[:, 2] = (gv[:, 0] * gv[:, 1]) % 2
     return [dict(v=np.round(2 * ov), t=ot, tags={"int-octahedron", "int-coords"}, name="int-octahedron", vdtype="int64"),
             dict(v=gv, t=gt, tags={"int-grid", "int-coords"}, name="int-grid", vdtype="int64", pres="t-fortran")]
+
+
+def narrow_cases():
+    """meshes whose element / vertex counts exceed what their (legitimately narrow) index dtype can count or square"""
+    out = []
+    for name, (v, t), pres in (("torus10x10", torus(10, 10), "t-int8"), ("torus12x11", torus(12, 11), "t-uint8"), ("torus14x14", torus(14, 14), "t-int16"),
+                               ("grid3x3", grid(3, 3), "t-int8")):
+        out.append(dict(v=np.asarray(v, float), t=np.asarray(t, np.int64), tags={name, "pres:" + pres, "narrow-index"}, name=name + ":" + pres, pres=pres))
+    return out
 
 
 def add_trailing_free(rng, v, t, k=2):
@@ -453,7 +476,7 @@ def tria_stream(seed, n, size="small", classes=None, modifiers=True, first=()):
             case = dict(v=v, t=t, tags=tags, name=name)
             if True:
                 # how the same mesh is handed to the implementation (values unchanged): memory layout, index dtype, integer coordinates
-                pres = ["plain", "plain", "plain", "t-fortran", "vt-fortran", "t-int32", "transposed", "strided"][int(rng.integers(0, 8))]
+                pres = ["plain", "plain", "plain", "t-fortran", "vt-fortran", "t-int32", "transposed", "strided", "t-int8", "t-uint8", "t-int16", "t-uint32"][int(rng.integers(0, 12))]
                 if pres == "transposed" and (len(v) < 4 or len(t) < 4 or len(v) == 3 or len(t) == 3):
                     pres = "t-fortran"
                 if pres != "plain":
@@ -547,7 +570,7 @@ def tet_stream(seed, n, size="small", modifiers=True):
             case = dict(v=v, t=t, tags=tags, name=name)
             if True:
                 # how the same mesh is handed to the implementation (values unchanged): memory layout, index dtype, integer coordinates
-                pres = ["plain", "plain", "plain", "t-fortran", "vt-fortran", "t-int32", "transposed", "strided"][int(rng.integers(0, 8))]
+                pres = ["plain", "plain", "plain", "t-fortran", "vt-fortran", "t-int32", "transposed", "strided", "t-int8", "t-uint8", "t-int16", "t-uint32"][int(rng.integers(0, 12))]
                 if pres == "transposed" and (len(v) < 4 or len(t) < 4 or len(v) == 3 or len(t) == 3):
                     pres = "t-fortran"
                 if pres != "plain":
